@@ -37,6 +37,9 @@ def props_of(func, clause, kind, explicit=None):
         return {"C19"}
     if kind == "joint":
         return {"C11"}
+    if f.startswith(("_filter", "_controls", "_authentication", "_messages:_unpack_", "_messages._unpack_")) and "_unpack_ldap_message_content[" not in f \
+            or "[containment]" in f:
+        return {"C05"}                # decode tree below the envelope: exception containment and loop progress
     if f.startswith("_messages") or f.startswith("specs.sess"):
         if kind == "raises-unexpected":
             return {"C05"}
@@ -237,10 +240,18 @@ def run_property(pid, tier):
 
     # ---- verdict
     lines, exit_code, nviol = [], 0, 0
-    regressions_refuted, regressions_open = [], []
+    regressions_refuted, regressions_open, vanished = [], [], []
+    complete_funcs = [r["job"]["ckey"] for r in results if not r.get("error") and r["obligations"]]
     for name in sorted(baseline):
         os_ = by_name.get(name)
         if os_ is None and any(name.startswith(m.replace(":", ".", 1) + "/") for m in missing_funcs):
+            continue
+        if os_ is None and any(name.startswith(m.replace(":", ".", 1) + "/") for m in complete_funcs):
+            # the function was executed to the end on every path and everything it generated is accounted for below: an
+            # obligation of the committed tree that is not generated any more belonged to a call site, a path or an
+            # exception outcome that the changed code no longer has (its contract clauses are still checked on every
+            # path that does exist)
+            vanished.append(name)
             continue
         if os_ is None:
             regressions_open.append({"name": name, "why": "obligation no longer generated (function changed shape, contract no longer attaches, or engine error)"})
@@ -336,7 +347,7 @@ def run_property(pid, tier):
         "obligation_names_proved": len(proved_names), "baseline_names": len(baseline),
         "regressions_refuted": [r["name"] for r in regressions_refuted], "undecided": [r["name"] for r in regressions_open][:40],
         "open_not_in_baseline": sorted(n for n in by_name if n not in baseline and n not in proved_names)[:40],
-        "engine_errors": errors[:20], "functions_missing_from_source": missing_funcs,
+        "engine_errors": errors[:20], "functions_missing_from_source": missing_funcs, "baseline_obligations_no_longer_generated": vanished[:40],
         "solver_s": round(solver_s, 2), "slow": sorted({o["name"] for o in instances if o["time"] > 5})[:30],
         "backends": _count([o["backend"].split("(")[0] for o in instances]),
         "callee_contracts_used": used[:80],
@@ -359,6 +370,8 @@ def run_property(pid, tier):
           f"bounded evaluations={evaluations}, wall={round(time.time() - t0, 1)}s")
     for m in missing_funcs:
         print(f"NOTE function {m} no longer exists in the source: its contract is not attached")
+    if vanished:
+        print(f"NOTE {len(vanished)} obligation(s) of the committed baseline are not generated any more by functions that were executed completely (call sites / paths the code no longer has), e.g. {vanished[0]}")
     for e in errors[:10]:
         print(f"ENGINE-ERROR function={e['function']}: {e['error'][:300]}")
     for e in native_errors:
